@@ -845,6 +845,8 @@ def vector_method(elty, name, sig):
 
 
 def copy_vec(ex, v, src):
+    if ex.st.regions[v.buf].size < src.n * v.es:
+        ex.st.mut(v.buf).size = src.n * v.es          # assignment (re)allocates as needed
     for i in range(src.n):
         ex.store(Ptr(v.buf, i * v.es), v.es, ex.load(Ptr(src.buf, i * src.es), src.es, 'f64'))
     v.n = src.n
